@@ -1,7 +1,7 @@
 """C05 -- Slices, concat, extension and clog2 address exactly the named bits.  (DESIGN.md section 4, C05)"""
 import ast
 
-from sa.astutil import (norm, guards_of, reaching_value, walk_no_nested, always_exits, parent,
+from sa.astutil import (inline_locals, norm, guards_of, reaching_value, walk_no_nested, always_exits, parent,
                         enclosing, stmt_of, Guard, preceding_stmts)
 from sa.bitsdom import BitsDom, Cannot, width_term, mask_width, self_name
 from sa.errors import AnalysisError
@@ -336,6 +336,9 @@ def rule_frame(repo):
     for tgt, val, st in _field_writes(f):
         if tgt.attr != '_uint':
             continue
+        if val is None:
+            raise AnalysisError(f"Bits.__setitem__: augmented store `{norm(st)[:60]}` that is not the second half of a read-modify-write pair")
+        val = _inline_or_operands(val, st)    # a hoisted `ins = (v & mask) << start` reads as the expression
         inside = any(x is st for x in ast.walk(br))
         if inside:
             n_slice += 1
@@ -351,6 +354,21 @@ def rule_frame(repo):
     return r
 
 
+def _inline_or_operands(val, st):
+    """`a | ins` where `ins` is a single-assignment local: read it as `a | <its expression>` (only the operands of the top-level
+    `|` are inlined; the frame variables sv / i / start keep their names)"""
+    if isinstance(val, ast.BinOp) and isinstance(val.op, ast.BitOr):
+        parts = []
+        for side in (val.left, val.right):
+            if isinstance(side, ast.Name):
+                v = reaching_value(side.id, st)
+                parts.append(v if v is not None else side)
+            else:
+                parts.append(side)
+        return ast.BinOp(left=parts[0], op=val.op, right=parts[1])
+    return val
+
+
 def rule_fit(repo):
     r = RuleResult('R-C05-fit', "a value that does not fit the target slice / bit raises instead of overwriting other bits")
     m, cls, meths = _bits(repo)
@@ -363,6 +381,9 @@ def rule_fit(repo):
     for tgt, val, st in _field_writes(f):
         if tgt.attr != '_uint':
             continue
+        if val is None:
+            raise AnalysisError(f"Bits.__setitem__: augmented store `{norm(st)[:60]}` that is not the second half of a read-modify-write pair")
+        val = _inline_or_operands(val, st)
         inside = any(x is st for x in ast.walk(br))
         reads_obj = any(isinstance(n, ast.Attribute) and n.attr == '_uint' and norm(n.value) == vname for n in ast.walk(val))
         cons = f"{'slice' if inside else 'bit'} store of {'Bits' if reads_obj else 'int'} value: {norm(st)[:70]}"
@@ -712,6 +733,86 @@ def rule_rtlir_slice_step(repo):
     return rule_slice_step(repo)
 
 
+def rule_alias(repo):
+    """`x[0:n] = x`, `x @= x`, `x <<= x`: the assigned value may be the object itself.  Every read of the operand's stored value
+    must therefore happen before the first store into self (a split clear-then-merge reads the already cleared value)."""
+    r = RuleResult('R-C05-alias', "in every writer that takes another Bits, the operand's stored value is read before self is modified "
+                                  "(the operand may be self: x[0:n] = x, x @= x)")
+    m, cls, meths = _bits(repo)
+    for name in ('__setitem__', '__imatmul__', '__ilshift__'):
+        f = meths[name]
+        me = f.args.args[0].arg
+        params = [a.arg for a in f.args.args[1:]]
+        stores = [st for tgt, val, st in _field_writes(f) if isinstance(tgt.value, ast.Name) and tgt.value.id == me]
+        # also the first half of a merged read-modify-write pair
+        stores += [n for n in walk_no_nested(f) if isinstance(n, ast.Assign) and any(isinstance(t, ast.Attribute) and norm(t.value) == me and t.attr in ('_uint', '_next') for t in n.targets)]
+        bad = None
+        for n in walk_no_nested(f):
+            if isinstance(n, ast.Attribute) and isinstance(n.ctx, ast.Load) and isinstance(n.value, ast.Name) and n.value.id in params \
+                    and n.attr in ('_uint', '_next'):
+                st_n = stmt_of(n)
+                for st in stores:
+                    if st is st_n:
+                        continue
+                    if any(p is st for p in preceding_stmts(n)):
+                        bad = (n, st)
+            # calls that read the operand's value
+            if isinstance(n, ast.Call) and isinstance(n.func, ast.Attribute) and isinstance(n.func.value, ast.Name) and n.func.value.id in params \
+                    and n.func.attr in ('uint', 'int', 'to_bits', '__int__'):
+                st_n = stmt_of(n)
+                for st in stores:
+                    if st is not st_n and any(p is st for p in preceding_stmts(n)):
+                        bad = (n, st)
+        cons = f"Bits.{name}: operand reads vs stores into {me}"
+        if bad:
+            r.bad(m, f"Bits.{name}", cons, f"`{norm(bad[0])}` is read after `{norm(bad[1])[:60]}`: when the assigned value is the object "
+                  f"itself the read sees the already modified value (x[0:n] = x zeroes x)", bad[0].lineno)
+        else:
+            r.ok(m, f"Bits.{name}", cons)
+    r.require_floor(3)
+    return r
+
+
+def rule_const_fit(repo):
+    """`s.out[4:8] //= 0x1F`: a constant tied to a signal / slice is stored through the range-checked Bits constructor, so a value
+    that does not fit the slice raises instead of being masked into it (the structural sibling of R-C05-fit)."""
+    r = RuleResult('R-C05-const-fit', "an integer constant connected to a signal or slice is constructed with the range-checked "
+                                      "constructor of the target type (no truncation flag, no masking): a constant too wide for the slice is rejected")
+    L3 = 'pymtl3/dsl/ComponentLevel3.py'
+    m = repo.mod(L3)
+    f = m.get_func('ComponentLevel3._connect_signal_const')
+    fq = 'ComponentLevel3._connect_signal_const'
+    cparam = f.args.args[2].arg
+    # the branch for python ints
+    br = [n for n in f.body if isinstance(n, ast.If) and 'isinstance' in norm(n.test) and 'int' in norm(n.test) and cparam in norm(n.test)]
+    if len(br) != 1:
+        raise AnalysisError(f"{fq}: the branch for integer constants was not found")
+    aliases = {cparam}
+    bad = None
+    uses = 0
+    for n in ast.walk(ast.Module(body=br[0].body, type_ignores=[])):
+        if isinstance(n, ast.Call) and any(isinstance(a, ast.Name) and a.id in aliases for a in n.args):
+            if norm(n.func) in ('Const', 'isinstance', 'int', 'repr', 'str', 'type'):
+                continue
+            uses += 1
+            kws = {k.arg: norm(k.value) for k in n.keywords}
+            if kws.get('trunc_int', 'False') != 'False' or (len(n.args) >= 3 and norm(n.args[2]) not in ('False',)) and norm(n.func) == 'Bits':
+                bad = (n, f"`{norm(n)}` truncates")
+        if isinstance(n, ast.BinOp) and isinstance(n.op, (ast.BitAnd, ast.Mod)) and \
+                any(isinstance(x, ast.Name) and x.id in aliases for x in (n.left, n.right)):
+            bad = (n, f"`{norm(n)}` masks the constant")
+    cons = "integer constant -> Type(value)"
+    if bad:
+        r.bad(m, fq, cons, f"{bad[1]}: a constant wider than the signal / slice it is tied to is silently reduced to the low bits "
+              f"(`s.out[4:8] //= 0x1F` drives 0xF) instead of raising", bad[0].lineno)
+    elif not uses:
+        raise AnalysisError(f"{fq}: the construction of the constant's value was not found")
+    else:
+        r.ok(m, fq, cons)
+    r.require_floor(1)
+    return r
+
+
 def rule_slice_nodes(repo):
     """sibling implementation of slicing: the per-signal memo of slice objects (`_dsl.slices`) and the nodes the structural
     passes register for them must be keyed by the absolute bit range, so that a nested slice never aliases the node of a
@@ -728,7 +829,7 @@ def rule_translated_slices(repo):
 
 
 RULES = [rule_bounds, rule_nonefalsy, rule_frame, rule_fit, rule_helpers, rule_intlog, rule_signal_slices, rule_rtlir_slices,
-         rule_slice_nodes, rule_translated_slices, rule_value_semantics, rule_rtlir_slice_step]
+         rule_slice_nodes, rule_translated_slices, rule_value_semantics, rule_rtlir_slice_step, rule_alias, rule_const_fit]
 
 
 def _m(name, old, new, rule=None, file=BITS, count=1):
@@ -739,6 +840,9 @@ _DEF_NEW = """        start = 0 if idx.start is None else int(idx.start)
         stop  = self._nbits if idx.stop is None else int(idx.stop)
 """
 MUTANTS = [
+    _m('const-connect-truncates', "      o2 = Const( Type, Type(o2), s )", "      value = Type( o2, trunc_int=True ) if issubclass( Type, Bits ) else Type(o2)\n      o2 = Const( Type, value, s )", 'R-C05-const-fit', file='pymtl3/dsl/ComponentLevel3.py'),
+    _m('const-connect-masked', "      o2 = Const( Type, Type(o2), s )", "      o2 = Const( Type, Type(o2 & ((1 << Type.nbits) - 1)), s )", 'R-C05-const-fit', file='pymtl3/dsl/ComponentLevel3.py'),
+    _m('setitem-clear-then-merge', "        self._uint = (sv & (~((1 << stop) - (1 << start)))) | \\\n                     ((v._uint & _upper[slice_nbits]) << start)", "        self._uint  = sv & ~((1 << stop) - (1 << start))\n        self._uint |= (v._uint & _upper[slice_nbits]) << start", 'R-C05-alias'),
     _m('getitem-full-width-returns-self', "      # Bypass check\n      nbits = stop - start\n", "      # Bypass check\n      nbits = stop - start\n      if nbits == self._nbits:\n        return self\n", 'R-C05-value'),
     _m('zext-same-width-returns-arg', "    assert new_width >= value.nbits\n    return Bits( new_width, value.uint() )", "    assert new_width >= value.nbits\n    if new_width == value.nbits:\n      return value\n    return Bits( new_width, value.uint() )", 'R-C05-value', file=HELPERS),
     _m('imatmul-returns-none-on-int-path', "      self._uint = v & up\n\n    return self\n\n  def to_bits", "      self._uint = v & up\n      return\n\n    return self\n\n  def to_bits", 'R-C05-value'),
@@ -782,6 +886,7 @@ MUTANTS = [
 ]
 
 EQUIV = [
+    _m('setitem-merge-value-hoisted', "        self._uint = (sv & (~((1 << stop) - (1 << start)))) | \\\n                     ((v._uint & _upper[slice_nbits]) << start)", "        ins = (v._uint & _upper[slice_nbits]) << start\n        self._uint  = sv & ~((1 << stop) - (1 << start))\n        self._uint |= ins", ),
     _m('zext-guard-clause', "  if isinstance( new_width, int ):\n    assert new_width >= value.nbits\n    return Bits( new_width, value.uint() )\n  else:\n    assert issubclass( new_width, Bits )\n    return new_width( value.uint() )\n",
        "  if not isinstance( new_width, int ):\n    assert issubclass( new_width, Bits )\n    return new_width( value.uint() )\n\n  assert new_width >= value.nbits\n  return Bits( new_width, value.uint() )\n", file=HELPERS),
     _m('clog2-helper-local', "  return ( int(N) - 1 ).bit_length()", "  max_index = int(N) - 1\n  return max_index.bit_length()", file=HELPERS),
